@@ -23,12 +23,14 @@ package keeper
 //@ ghost func stOk(gpNonNil bool, msgNonNil bool, stateNonNil bool, evmNonNil bool) bool = gpNonNil && msgNonNil && stateNonNil && evmNonNil
 
 //@ func (st *StateTransition) gasUsed() uint64
+//@   deterministic[C01.no_node_local_source]
 //@   requires st != nil && st.gas <= st.initialGas
 //@   modifies nothing
 //@   ensures[C05.gas_used] result == st.initialGas - st.gas
 //@   panics never
 
 //@ func (st *StateTransition) buyGas() (err error)
+//@   deterministic[C01.no_node_local_source]
 //@   requires st != nil && st.gp != nil && st.msg != nil
 //@   requires st.gas == 0
 //@   modifies st.gas, st.initialGas, *st.gp
@@ -40,6 +42,7 @@ package keeper
 // refundGas: refund counter capped by gasUsed/quotient (C05); the sender is credited gas*price iff the fee was
 // paid in the ante handler, and that credit is created by StateDB.AddBalance (exact effect, C04).
 //@ func (st *StateTransition) refundGas(refundQuotient uint64)
+//@   deterministic[C01.no_node_local_source]
 //@   requires st != nil && st.gp != nil && st.msg != nil && st.state != nil && st.gasPrice != nil
 //@   requires refundQuotient > 0 && st.gas <= st.initialGas && *st.gp + st.initialGas < pow2(64)
 //@   requires[C05.refund_quotient_rule] st.evm != nil && st.evm.Context.BlockNumber != nil && refundQuotient == (londonActive(st.evm.ChainConfig(), bigval[st.evm.Context.BlockNumber]) ? 5 : 2)
@@ -54,6 +57,7 @@ package keeper
 // preCheck: nonce / EOA / fee-cap admission rules of go-ethereum, then buyGas (no balance debit: the fee was
 // taken by the ante handler).
 //@ func (st *StateTransition) preCheck() (err error)
+//@   deterministic[C01.no_node_local_source]
 //@   requires st != nil && st.gp != nil && st.msg != nil && st.state != nil && st.evm != nil
 //@   requires st.gasFeeCap != nil && st.gasTipCap != nil && st.evm.Context.BlockNumber != nil
 //@   requires londonActive(st.evm.ChainConfig(), bigval[st.evm.Context.BlockNumber]) ==> st.evm.Context.BaseFee != nil
@@ -68,6 +72,7 @@ package keeper
 
 // TransitionDb (normal return with err == nil means the message was executed, possibly with a VM error).
 //@ func (st *StateTransition) TransitionDb() (res *core.ExecutionResult, err error)
+//@   deterministic[C01.no_node_local_source]
 //@   requires st != nil && st.gp != nil && st.msg != nil && st.state != nil && st.evm != nil
 //@   requires st.gasPrice != nil && st.gasFeeCap != nil && st.gasTipCap != nil && st.evm.Context.BlockNumber != nil && st.msg.Value() != nil
 //@   requires londonActive(st.evm.ChainConfig(), bigval[st.evm.Context.BlockNumber]) ==> st.evm.Context.BaseFee != nil
@@ -142,6 +147,7 @@ package keeper
 //@   panics never
 
 //@ func (k Keeper) GetTxCountTransient(ctx sdk.Context) uint64
+//@   deterministic[C01.no_node_local_source]
 //@   modifies nothing
 //@   ensures[C13.count_floor] result == max(1, trCount[layer(ctx)])
 //@   panics never
@@ -177,6 +183,7 @@ package keeper
 
 // ApplyMessageWithConfig: gas accounting of one executed message (C05) and the receipt it stores (C13).
 //@ func (k *Keeper) ApplyMessageWithConfig(ctx sdk.Context, msg core.Message, tracer corevm.EVMLogger, commit bool, cfg *evmvm.EVMConfig, txConfig evmvm.TxConfig) (res *evmtypes.MsgEthereumTxResponse, err error)
+//@   deterministic[C01.no_node_local_source]
 //@   requires k != nil && cfg != nil && msg != nil && cfg.ChainConfig != nil
 //@   requires msg.GasPrice() != nil && msg.GasFeeCap() != nil && msg.GasTipCap() != nil && msg.Value() != nil
 //@   requires bigval[msg.Value()] >= 0
@@ -199,6 +206,7 @@ package keeper
 
 // gas.go
 //@ func (k *Keeper) ResetGasMeterAndConsumeGas(ctx sdk.Context, gasUsed uint64)
+//@   deterministic[C01.no_node_local_source]
 //@   requires ctx.GasMeter() != nil
 //@   modifies gmConsumed[payload(ctx.GasMeter())], gmToLimit[payload(ctx.GasMeter())]
 //@   ensures[C05.meter_reset] gmConsumed[payload(ctx.GasMeter())] == gasUsed
@@ -214,6 +222,7 @@ package keeper
 //@   panics never
 
 //@ func (k *Keeper) NewTxConfig(ctx sdk.Context, tx *ethtypes.Transaction) evmvm.TxConfig
+//@   deterministic[C01.no_node_local_source]
 //@   requires k != nil
 //@   modifies nothing
 //@   ensures[C13.tx_index] result.TxIndex == max(1, trCount[layer(ctx)]) - 1
@@ -224,6 +233,7 @@ package keeper
 // ApplyTransaction: the gas the consensus result reports equals the receipt's gas (C05); every core error consumes
 // the whole gas limit (the two earlier error returns need an unknown block proposer / an invalid signature).
 //@ func (k *Keeper) ApplyTransaction(ctx sdk.Context, tx *ethtypes.Transaction) (res *evmtypes.MsgEthereumTxResponse, err error)
+//@   deterministic[C01.no_node_local_source]
 //@   requires k != nil && tx != nil && ctx.GasMeter() != nil
 //@   requires txValue(tx) >= 0
 //@   requires txType(tx) <= 2 && gmLimit(payload(ctx.GasMeter())) == txGas(tx) && gmConsumed[payload(ctx.GasMeter())] <= gmLimit(payload(ctx.GasMeter()))
@@ -257,6 +267,7 @@ package keeper
 
 // GetBalance: the EVM-denomination bank balance of the address (C04/C08 view function)
 //@ func (k *Keeper) GetBalance(ctx sdk.Context, addr common.Address) *big.Int
+//@   deterministic[C01.no_node_local_source]
 //@   requires k != nil && k.bankKeeper != nil
 //@   modifies nothing
 //@   ensures[C04.balance_view] result != nil && bigval[result] == (evmDenomOf[layer(ctx)] == "" ? -1 : bankBal[layer(ctx)][addrBytes(addr)][evmDenomOf[layer(ctx)]])
@@ -292,6 +303,7 @@ package keeper
 // to the gas the consensus result reports (C05). Preconditions are the facts the ante handler chain establishes
 // (decodable payload, valid bech32 sender that equals the recovered signer, gas meter limited to the tx gas).
 //@ func (k *Keeper) EthereumTx(goCtx context.Context, msg *evmtypes.MsgEthereumTx) (res *evmtypes.MsgEthereumTxResponse, err error)
+//@   deterministic[C01.no_node_local_source]
 //@   requires k != nil && msg != nil && typeof(goCtx) == type(sdk.Context) && k.feeMarketKeeper != nil && k.bankKeeper != nil
 //@   requires bech32Valid(msg.From) && txDecodable(bytes(msg.MarshalledTx)) && decType(bytes(msg.MarshalledTx)) <= 2
 //@   requires bech32Bytes(msg.From) == addrBytes(decSender(bytes(msg.MarshalledTx)))
@@ -311,6 +323,7 @@ package keeper
 
 // fillLogIndexes: the logs get the consecutive (64-bit) indices start, start+1, ...; nothing else is written.
 //@ func fillLogIndexes(logs []*ethtypes.Log, startLogIndex uint)
+//@   deterministic[C01.no_node_local_source]
 //@   requires forall a int :: (0 <= a && a < len(logs)) ==> logs[a] != nil
 //@   requires forall a int, b int :: (0 <= a && a < b && b < len(logs)) ==> logs[a] != logs[b]
 //@   modifies fieldof(type(ethtypes.Log), Index)
@@ -323,6 +336,7 @@ package keeper
 // grpc_query.go — eth_call / eth_estimateGas (C08): nothing persistent changes, whatever the request
 // ---------------------------------------------------------------------------------------------
 //@ func (k *Keeper) NewTxConfigFromMessage(ctx sdk.Context, msg core.Message) evmvm.TxConfig
+//@   deterministic[C01.no_node_local_source]
 //@   requires k != nil
 //@   modifies nothing
 //@   ensures[C13.tx_index] result.TxIndex == max(1, trCount[layer(ctx)]) - 1
@@ -331,6 +345,7 @@ package keeper
 //@   panics never
 
 //@ func (k *Keeper) GetNonce(ctx sdk.Context, addr common.Address) uint64
+//@   deterministic[C01.no_node_local_source]
 //@   requires k != nil
 //@   modifies nothing
 //@   ensures[C06.nonce_view] result == acctSeq[layer(ctx)][addrBytes(addr)]
@@ -339,6 +354,7 @@ package keeper
 // EthCall: the persistent state seen through the query context is exactly what it was (only block-scoped transient
 // bookkeeping of that context is written), for every request.
 //@ func (k Keeper) EthCall(c context.Context, req *evmtypes.EthCallRequest) (res *evmtypes.MsgEthereumTxResponse, err error)
+//@   deterministic[C01.no_node_local_source]
 //@   requires typeof(c) == type(sdk.Context)
 //@   modifies trGas[layer(sdk.UnwrapSDKContext(c))], trLogs[layer(sdk.UnwrapSDKContext(c))], trReceipt[layer(sdk.UnwrapSDKContext(c))], trHasReceipt[layer(sdk.UnwrapSDKContext(c))], elems(type(common.Address))
 //@   ensures[C08.eth_call_no_persistent_change] wVersion[layer(sdk.UnwrapSDKContext(c))] == old(wVersion[layer(sdk.UnwrapSDKContext(c))]) && bankBal[layer(sdk.UnwrapSDKContext(c))] == old(bankBal[layer(sdk.UnwrapSDKContext(c))]) && bankSupply[layer(sdk.UnwrapSDKContext(c))] == old(bankSupply[layer(sdk.UnwrapSDKContext(c))]) && acctSeq[layer(sdk.UnwrapSDKContext(c))] == old(acctSeq[layer(sdk.UnwrapSDKContext(c))]) && acctExists[layer(sdk.UnwrapSDKContext(c))] == old(acctExists[layer(sdk.UnwrapSDKContext(c))])
@@ -347,6 +363,7 @@ package keeper
 
 // EstimateGas: same frame; and a successful estimate lies within (TxGas-1, cap].
 //@ func (k Keeper) EstimateGas(c context.Context, req *evmtypes.EthCallRequest) (res *evmtypes.EstimateGasResponse, err error)
+//@   deterministic[C01.no_node_local_source]
 //@   requires typeof(c) == type(sdk.Context)
 //@   requires req != nil ==> req.GasCap < pow2(63)
 //@   modifies trGas, trLogs, trReceipt, trHasReceipt, elems(type(common.Address))
@@ -354,3 +371,41 @@ package keeper
 //@   ensures[C08.estimate_no_persistent_change] wVersion[layer(sdk.UnwrapSDKContext(c))] == old(wVersion[layer(sdk.UnwrapSDKContext(c))]) && bankBal[layer(sdk.UnwrapSDKContext(c))] == old(bankBal[layer(sdk.UnwrapSDKContext(c))]) && bankSupply[layer(sdk.UnwrapSDKContext(c))] == old(bankSupply[layer(sdk.UnwrapSDKContext(c))]) && acctSeq[layer(sdk.UnwrapSDKContext(c))] == old(acctSeq[layer(sdk.UnwrapSDKContext(c))]) && acctExists[layer(sdk.UnwrapSDKContext(c))] == old(acctExists[layer(sdk.UnwrapSDKContext(c))])
 //@   ensures[C08.estimate_in_range] err == nil ==> (res != nil && res.Gas <= req.GasCap)
 //@   panics any
+
+// ---------------------------------------------------------------------------------------------
+// abci.go / keeper.go — begin / end block: outside per-transaction recovery, a panic here halts the chain (C20)
+// ---------------------------------------------------------------------------------------------
+//@ import storetypes "cosmossdk.io/store/types"
+
+// Representation of the per-transaction receipts in the transient store (TRUSTED link between the summaries of the
+// store-backed setters above and the raw reads of GetTxReceiptsTransient): under the module's transient store key, the
+// entry of index i is present iff a non-empty receipt was recorded for i, and holds those bytes.
+//@ ghost func evmTransientKey() ref
+//@ axiom tr_receipt_representation: forall l int, i int :: kvHas[kvId(l, evmTransientKey())][trReceiptKeyB(i)] == trHasReceipt[l][i] && (trHasReceipt[l][i] ==> (kvVal[kvId(l, evmTransientKey())][trReceiptKeyB(i)] == trReceipt[l][i] && blen(trReceipt[l][i]) > 0))
+
+//@ func (k Keeper) GetTxReceiptsTransient(ctx sdk.Context) (receipts ethtypes.Receipts)
+//@   deterministic[C01.no_node_local_source]
+//@   requires payload(k.transientKey) == evmTransientKey() && k.transientKey != nil
+//@   requires[C13.every_counted_tx_has_receipt] forall i int :: (0 <= i && i < trCount[layer(ctx)]) ==> (trHasReceipt[layer(ctx)][i] && rlpReceiptValid(trReceipt[layer(ctx)][i]))
+//@   modifies elems(type(*ethtypes.Receipt))
+//@   ensures[C13.all_receipts_loaded] len(receipts) == trCount[layer(ctx)]
+//@   panics[C20.receipts_never_panic,C13.receipts_never_panic] never
+//@ loop 1
+//@   invariant txIdx <= txCount && len(receipts) == txIdx && (cap(receipts) == 0 || fresh(base(receipts)))
+
+//@ func (k Keeper) EmitBlockBloomEvent(ctx sdk.Context, bloom ethtypes.Bloom)
+//@   deterministic[C01.no_node_local_source]
+//@   modifies evlog[payload(ctx.EventManager())]
+//@   panics[C20.bloom_event_never_panics] never
+
+//@ func (k *Keeper) EndBlock(ctx sdk.Context)
+//@   deterministic[C01.no_node_local_source]
+//@   requires k != nil && payload(k.transientKey) == evmTransientKey() && k.transientKey != nil
+//@   requires[C13.every_counted_tx_has_receipt] forall i int :: (0 <= i && i < trCount[layer(ctx)]) ==> (trHasReceipt[layer(ctx)][i] && rlpReceiptValid(trReceipt[layer(ctx)][i]))
+//@   modifies evlog[payload(ctx.EventManager())], elems(type(*ethtypes.Receipt))
+//@   panics[C20.end_block_never_panics] never
+
+//@ func (k Keeper) SetBlockHashForCurrentBlockAndPruneOld(ctx sdk.Context)
+//@   deterministic[C01.no_node_local_source]
+//@   modifies kvHas[kvId(layer(ctx), payload(k.storeKey))], kvVal[kvId(layer(ctx), payload(k.storeKey))]
+//@   panics[C20.block_hash_never_panics] never
